@@ -6,7 +6,7 @@ from .. import AnalysisError, tables
 from ..pat import find_expr, find_stmt, match_expr, match_stmt
 from ..canon import canon, canon_node
 from ..pm import src
-from ..q import FA, call_name, cfg_of, guard_facts, is_self_attr, nfact, returns_under, walk_no_nested
+from ..q import FA, conjuncts, call_name, cfg_of, guard_facts, is_self_attr, nfact, returns_under, walk_no_nested
 from ..resolve import resolver
 from ..rules import sig
 from ..rules.selfattrs import SelfAttrs
@@ -484,6 +484,29 @@ def run(ctx):
                        f"`self.has_prime_prior = True` can execute after {after}: with a post-rescaling the offered (flat / transformed-bounds) prime prior is not the original prior divided by the Jacobian" if after else "")
     ctx.require(n_on >= 2, "stores `self.has_prime_prior = True` not found")
     ctx.floor("C07.8", 3)
+
+    # ---- C07.9 the Cartesian (Gaussian) prime prior of the angle maps assumes the auxiliary chi radius -------------
+    # Angle / AnglePair draw a radius from self.chi only when the user gave no radial parameter; the prime prior they
+    # offer (log_2d/3d_cartesian_prior: a unit Gaussian) is the original prior divided by the Jacobian only in that
+    # case - with a user radial parameter, whose prior is the model's, it must not be offered
+    from ..q import holds as _holds9
+    n_chi = 0
+    for c_ in [base] + prog.subclasses(base):
+        own = [f_ for f_ in c_.methods.values()]
+        if not any(isinstance(n_, ast.Attribute) and isinstance(n_.ctx, ast.Store) and n_.attr == "chi" and isinstance(n_.value, ast.Name) and n_.value.id == "self" for f_ in own for n_ in walk_no_nested(f_.node)):
+            continue
+        for f_ in own:
+            fa_ = FA(f_)
+            for nid_ in fa_.find(lambda s_: isinstance(s_, ast.Assign) and any(src(t_) == "self.has_prime_prior" for t_ in s_.targets)):
+                v_ = fa_.stmt(nid_).value
+                if isinstance(v_, ast.Constant) and v_.value in (False, None):
+                    continue
+                n_chi += 1
+                conj_ = [src(e_) for e_, t_ in conjuncts(v_, True) if t_]
+                ok_ = _holds9(guard_facts(fa_, nid_), "self.chi", True) or any(x_ in ("self.chi", "bool(self.chi)") for x_ in conj_)
+                ctx.ob("R-DOM", "C07.9", f_, "the Gaussian prime prior of an angle map is offered only with the auxiliary chi radius (guard: self.chi), never with a user-supplied radial parameter", ok_, f"`{src(fa_.stmt(nid_))}` under {[(src(e_), t_) for e_, t_ in guard_facts(fa_, nid_)]}", node=fa_.stmt(nid_))
+    ctx.require(n_chi >= 2, f"only {n_chi} stores that switch the prime prior on in the angle reparameterisations")
+    ctx.floor("C07.9", 2)
     ctx.assumptions += ["the algebraic identities hold on the interior of the domain (positive symbols; the measure-zero singular sets named in the property are excluded)", "sympy's simplifier is trusted for the identities it proves; an identity it cannot prove is reported as ANALYSIS-INCOMPLETE or a failed obligation, never silently passed", "numerical round-trip error, support equality of prime priors and edge points are not decided"]
 
 
